@@ -713,10 +713,11 @@ func (r *c16RecUpstream) String() string { return fmt.Sprint(r.Upstream) }
 // C16Client is a real client command over an arbitrary upstream list, one unix-socket listener for
 // channel "echo" with an optional forward address.
 type C16Client struct {
-	Cmd   *clientCmd.Command
-	Addr  string
-	Trace *C16Trace
-	intr  chan os.Signal
+	Cmd         *clientCmd.Command
+	AddrRefused string
+	Addr        string
+	Trace       *C16Trace
+	intr        chan os.Signal
 }
 
 // NewC16Client starts the client. urls: upstream addresses in list order; forward: "" or a URL.
@@ -734,9 +735,13 @@ func NewC16Client(urls []string, forward string, secure bool) (*C16Client, error
 	}
 	c.Addr = sockName("c16l", "")
 	al.Address = addr.MustParseAddress("unix://" + c.Addr)
+	// a second listener asks for a channel no server of the workload offers (every connection to it is refused by the server)
+	al2 := listener.AbstractListener{ProtoName: addr.ProtoName{Name: "not-offered-by-any-server"}}
+	c.AddrRefused = sockName("c16x", "")
+	al2.Address = addr.MustParseAddress("unix://" + c.AddrRefused)
 	ccfg := cert.ClientConfig{}
 	ccfg.CaCertificate = pk.CA1
-	c.Cmd = &clientCmd.Command{ClientConfig: ccfg, ListenList: listener.Listeners{&listener.SocketListener{AbstractListener: al}},
+	c.Cmd = &clientCmd.Command{ClientConfig: ccfg, ListenList: listener.Listeners{&listener.SocketListener{AbstractListener: al}, &listener.SocketListener{AbstractListener: al2}},
 		Upstream: upstream.Upstreams{Data: ups}, Secure: secure}
 	if err := c.Cmd.Startup(c.intr); err != nil {
 		c.Cmd.Shutdown()
@@ -747,6 +752,9 @@ func NewC16Client(urls []string, forward string, secure bool) (*C16Client, error
 
 func (c *C16Client) Dial() (net.Conn, error) { return net.Dial("unix", c.Addr) }
 
+// DialRefused connects to the listener whose channel no server offers.
+func (c *C16Client) DialRefused() (net.Conn, error) { return net.Dial("unix", c.AddrRefused) }
+
 func (c *C16Client) Close() {
 	done := Go(func() { c.Cmd.Shutdown() })
 	select {
@@ -754,6 +762,7 @@ func (c *C16Client) Close() {
 	case <-time.After(5 * time.Second):
 	}
 	os.Remove(c.Addr)
+	os.Remove(c.AddrRefused)
 }
 
 // C16Yield lets other goroutines run (used between scripted steps; never decides anything).
